@@ -79,6 +79,11 @@ type Interpreter struct {
 	Registers Registers
 	Memory    *Memory
 	Gas       Gas
+
+	// jumped is set by the branch and jump handlers when the jump is taken. The
+	// engines need it because a taken jump to the instruction's own address
+	// returns the same counter as a jump that is not taken.
+	jumped bool
 }
 
 type Host struct {
